@@ -68,8 +68,11 @@ def clone_deviations(q, meta):
                       ('pickle', lambda o: pickle.loads(pickle.dumps(o))), ('pickle-2', lambda o: pickle.loads(pickle.dumps(o, 2)))):
         try:
             c = make(q)
-        except Exception as ex:  # noqa: BLE001
-            out.append((how, 'raised', type(ex).__name__, None))
+        except Exception:  # noqa: BLE001
+            # the property does not promise that the object can be copied / pickled - only a clone that exists is judged
+            State.rec.count('clone_not_possible:%s' % how)
+            continue
+        if type(c) is not type(q):
             continue
         if [bytes(r) for r in c.matrix] != [bytes(r) for r in q.matrix]:
             out.append((how, 'matrix', None, None))
